@@ -10,6 +10,7 @@ from hypothesis import strategies as st
 
 from .. import adapters as A
 from .. import common, gen
+from .. import kernel as KN
 from .. import observer as OB
 from .. import sim as SM
 from .. import world as WD
@@ -342,7 +343,7 @@ def run_case(case):
         if victim_established(s, victim):
             s.fail(f'established-with-bad-credential:{f}', f'endpoint {victim} established an IKE_SA although the peer\'s credential / '
                                                            f'identity / method is not the configured one ({f})')
-        if s.eps[victim].kernel.sad:
+        if s.eps[victim].kernel.sad or s.eps[victim].kernel.requests(KN.NEWSA):
             s.fail(f'sa-installed-with-bad-credential:{f}', f'endpoint {victim} installed IPsec SAs although authentication must fail ({f})')
         return s.fails, info, s
     if kind == 'none':
@@ -400,7 +401,8 @@ def run_case(case):
         if est:
             s.fail(f'established-after-mitm:msg{n_msg}:{case["what"]}', f'message {n_msg} was altered in flight ({case["what"]}) and the '
                                                                         f'IKE_SA of endpoint {victim} that received it still got established')
-        if any(q.child_sas for q in tracked):
+        others = [q for q in s.eps[victim].sas if not any(q is t for t in tracked)]
+        if any(q.child_sas for q in tracked) or (not others and s.eps[victim].kernel.requests(KN.NEWSA)):
             s.fail(f'sa-installed-after-mitm:msg{n_msg}:{case["what"]}', f'message {n_msg} was altered in flight ({case["what"]}) and the '
                                                                          f'receiving endpoint {victim} installed IPsec SAs')
         return s.fails, info, s
@@ -428,6 +430,12 @@ def run_case(case):
     est = victim_established(s, victim)
     if case['variant'] == 'correct':
         if not est:
+            # the endpoint's own AUTH values are the other half of the evidence: if they do not verify under the reference, the
+            # code under test and RFC 7296 2.15 disagree (a violation); if they do, only the crafting can be wrong
+            own = [(sig, text) for sig, text in s.observer().problems if sig == 'auth-not-over-wire']
+            if own:
+                s.fail(*own[0])
+                return s.fails, info, s
             raise HarnessError('C02 positive control failed: an IKE_AUTH message re-written by the insider with the AUTH value the '
                                'reference computes over the right inputs was refused (the crafting is wrong)')
         return s.fails, info, s
@@ -435,7 +443,7 @@ def run_case(case):
         s.fail(f'established-with-wrong-auth:msg{n_msg}:{case["variant"]}',
                f'endpoint {victim} ({"responder" if victim_is_responder else "initiator"}) established the IKE_SA although the AUTH / '
                f'identity it received is wrong ({case["variant"]})')
-    if s.eps[victim].kernel.sad:
+    if s.eps[victim].kernel.sad or s.eps[victim].kernel.requests(KN.NEWSA):       # also one that was removed again afterwards
         s.fail(f'sa-installed-with-wrong-auth:msg{n_msg}:{case["variant"]}',
                f'endpoint {victim} installed IPsec SAs although the AUTH / identity it received is wrong ({case["variant"]})')
     return s.fails, info, s
@@ -496,6 +504,8 @@ def grid_cases():
                     for what in MITM:
                         for k in (0, 1, 2):
                             out.append({'kind': 'mitm', 'cfg': cfg, 'first': first, 'msg': msg, 'what': what, 'k': k})
+            for first in 'ab':
+                out.append({'kind': 'none', 'cfg': cfg, 'first': first, 'ops': [['rekey_ike', first, 0], ['acquire', 'b', 0, 2]]})
             if auth == 'psk':
                 for f in CRED:
                     out.append({'kind': 'cred', 'cfg': cfg, 'first': 'a', 'fault': f})
